@@ -2,7 +2,7 @@
 import ast
 from vstatic import terms as T
 from vstatic.terms import sym, Term, Atom, lift, pretty
-from .common import agree_ref, who_writes
+from .common import agree_ref, who_writes, inline_locals
 
 PF = 'voltage.polyphase_filterbank.'
 
@@ -132,6 +132,33 @@ def run(ctx):
 
     # ---- D2 front end
     ctx.clause = 'D2'
+    # the filterbank is a function of the sample VALUES: nothing in the module may read an array through its memory layout
+    # (stride tricks, raw buffers, dtype re-interpretation) -- a non-contiguous input (x[::2], z.real) holds the same values
+    # in a different layout
+    LAYOUT_CALLS = {'frombuffer', 'ndpointer', 'from_dlpack'}
+    LAYOUT_ATTRS = {'ctypes', 'data', '__array_interface__'}
+    mod = ctx.prog.module('voltage.polyphase_filterbank')
+    bad = []
+    for fn_ in [f_ for f_ in ctx.prog.functions.values() if f_.module is mod and not isinstance(f_.node, ast.Lambda)]:
+        for n in ast.walk(fn_.node):
+            if isinstance(n, ast.Call):
+                f = n.func
+                name = f.attr if isinstance(f, ast.Attribute) else (f.id if isinstance(f, ast.Name) else None)
+                if name in LAYOUT_CALLS or (name == 'view' and isinstance(f, ast.Attribute) and (n.args or n.keywords)):
+                    bad.append(n)
+                elif name == 'as_strided':
+                    # a strided view is value-correct only when its strides come from the array's own .strides
+                    st_ = next((k.value for k in n.keywords if k.arg == 'strides'), n.args[2] if len(n.args) > 2 else None)
+                    src = ast.unparse(inline_locals(fn_.node, st_)) if st_ is not None else ''
+                    if '.strides' not in src or 'itemsize' in src:
+                        bad.append(n)
+            elif isinstance(n, ast.Attribute) and n.attr in LAYOUT_ATTRS and not (
+                    isinstance(n.value, ast.Name) and n.value.id == 'self'):
+                bad.append(n)
+    ctx.ob('EFFECTS', 'the filterbank reads its input by value only (no stride tricks / raw-buffer views / dtype re-interpretation: '
+           'the result must not depend on the memory layout of the input array)', 'setigen/voltage/polyphase_filterbank.py',
+           not bad, {'layout_dependent_constructs': [ast.unparse(n)[:100] for n in bad]}, node=(bad[0] if bad else None),
+           construct=(ast.unparse(bad[0])[:80] if bad else 'module sweep'))
     fe = ctx.func(PF + 'pfb_frontend')
     r, I = ctx.run(fe)
     rr, IR = ctx.run_ref(fe, REF_FRONTEND)
